@@ -306,6 +306,10 @@ def coverages_sorted(font):
             if ids != sorted(ids):
                 bad.append((path, o.glyphs))
             return
+        if isinstance(o, ot.PairSet):   # records are looked up by binary search on SecondGlyph
+            ids = [gm[r.SecondGlyph] for r in o.PairValueRecord]
+            if ids != sorted(ids):
+                bad.append((path + ".PairValueRecord", [r.SecondGlyph for r in o.PairValueRecord]))
         if isinstance(o, otBase.BaseTable):
             for k, v in o.__dict__.items():
                 walk(v, f"{path}.{k}")
